@@ -267,11 +267,14 @@ class HillClimbAllocator:
             # Pick any affecting live range.
             ix1 = turn_list[random.randint(0, len(turn_list) - 1)]
 
-        ix2 = turn_list[random.randint(0, len(turn_list) - 2)]
-        if ix1 == ix2:
-            ix2 = turn_list[-1]
-        # Swap indices
-        indices[ix1], indices[ix2] = indices[ix2], indices[ix1]
+        if len(turn_list) > 1:
+            ix2 = turn_list[random.randint(0, len(turn_list) - 2)]
+            if ix1 == ix2:
+                ix2 = turn_list[-1]
+            # Swap indices
+            indices[ix1], indices[ix2] = indices[ix2], indices[ix1]
+        # else: a previous, aborted allocation left stale turns that all coincide; there is nothing to swap and the
+        # re-allocation done by the caller refreshes the turns
         if iterations_stuck > HillClimbAllocator.MAX_ITERATIONS_STUCK:
             # The best allocation has not improved for a while, maybe improvement is not possible
             # by single-swapping indices; add more neighbour live ranges and swap up to two more indices.
